@@ -56,7 +56,10 @@ TRUSTED = """\
     `a != b`      ↦ `!(a == b)`;   `p && q` ↦ `p && q`, `p || q` ↦ `p || q`, `!p` ↦ `!p` on `bool` (both operands are pure)
     intrinsics    `_mm_cmpeq_epi8/16/32/64`, `_mm_movemask_epi8` ↦ CC.X86.<name>
     per type      every definition `<type>[_flags]_eq` is the `==` of that concrete Rust type, evaluated under each
-                  (S3, S4) ∈ {YesS3, NoS3} × {YesS4, NoS4}; the name carries the flags an impl header consulted (none: one definition)
+                  (S3, S4) ∈ {YesS3, NoS3} × {YesS4, NoS4}; the name carries the flags an impl header consulted (none: one definition);
+                  `<Machine>_<assoc>[_flags]_eq` is the `==` of the type `impl Machine for <Machine>` gives `type <assoc>`
+                  (`eq_machine_rows`); for GenericMachine the associated type (aliases expanded) is a struct with a derived
+                  `PartialEq`, or an `x2<..>` / `x4<..>`, which has none in a build without the x86 module
     derive        `#[derive(PartialEq)]` on a struct ↦ the conjunction, in declaration order, of `==` on the fields (the documented
                   expansion of the built-in derive; ASSUMED, rustc's expansion is not read); a field `[uN; k]` ↦ element comparisons
                   of the N-bit words of the carrier (little endian), `[vec128_storage; k]` in generic.rs ↦
@@ -162,7 +165,7 @@ NO_IMPL = "no impl provides `eq`"
 
 
 def x86_part(repo, defs, errors):
-    """-> (provided rows, missing rows)"""
+    """-> (provided rows, missing rows, machine rows)"""
     old_lv = X.XP.LV
     X.XP.LV = EQ_LV + [lv for lv in old_lv if lv not in EQ_LV]
     try:
@@ -237,7 +240,53 @@ def x86_part(repo, defs, errors):
                         errors.append(msg)
             if tname in missing and any(p[0] == tname for p in provided):
                 errors.append("%s has `PartialEq` under some flags only" % tname)
-        return provided, missing
+        # --- `==` of the associated vector types of every `impl Machine` (what `<M as Machine>::u32x4x2 == ..` runs)
+        mrows = []
+        for im in items.impls:
+            trait = im.trait[1][-1] if im.trait is not None and im.trait[0] == "path" else None
+            if trait != "Machine":
+                continue
+            mname = im.selfty[1][-1] if im.selfty[0] == "path" else "?"
+            for an, aty in im.assoc:
+                names = []
+                for flags in combos:
+                    doc = "`==` of <%s as Machine>::%s" % (mname, an)
+                    try:
+                        ev = EqEval(items, types, flags)
+                        ty = types.norm(aty, dict((g, X.T(flags[g]) if g in X.FLAGVALS else X.T(g)) for g in im.gens))
+                        ev.consulted = set()
+                        a = ev.from_carrier(ty, ev.dag.leaf("a0"))
+                        b = ev.from_carrier(ty, ev.dag.leaf("a1"))
+                        try:
+                            im2, f, sub = ev.resolve(ty, "eq", [b])
+                            out = ev.call_fn(im2, f, sub, a, [b])
+                        except TErr as ex:
+                            if str(ex).startswith(NO_IMPL):
+                                names.append("")
+                                continue
+                            raise
+                        if not isinstance(out, BoolV):
+                            raise TErr("`eq` does not return a bool")
+                        fl = "_".join(flags[kd] for kd in ("S3", "S4") if kd in ev.consulted)
+                        name = "_".join(x for x in (mname, an, fl, "eq") if x)
+                        lty = types.lean(ty)
+                        text = _deftext(name, [("a0", lty), ("a1", lty)], ev, out.node)
+                        names.append(name)
+                        if name in seen:
+                            if seen[name] != text:
+                                raise TErr("internal: two evaluations named %s differ" % name)
+                            continue
+                        seen[name] = text
+                        defs.append(Def(name, "%s = %s (impl `%s`)" % (doc, X.tstr(ty).split("<")[0] if ty[1] not in ("x2", "x4") else X.mangle(ty), X.toks_flat(im2.header)), text))
+                    except (TErr, X.Diverge) as ex:
+                        msg = "%s under <%s, %s>: %s" % (doc, flags["S3"], flags["S4"], ex)
+                        if msg not in errors:
+                            errors.append(msg)
+                uniq = sorted(set(names))
+                if len(uniq) > 1 and "" in uniq:
+                    errors.append("<%s as Machine>::%s has `PartialEq` under some flags only" % (mname, an))
+                mrows.append((mname, an, [n for n in uniq]))
+        return provided, missing, mrows
     finally:
         X.XP.LV = old_lv
 
@@ -416,11 +465,48 @@ def derive_part(repo, defs, errors):
 
 # =========================================================================== output
 
+def generic_machine_rows(repo, derive_rows, errors):
+    """(machine, associated type, [definition of its `==`] or [""]) for `impl Machine for GenericMachine`: the associated type
+    (aliases expanded) is a struct of generic.rs with a derived PartialEq, or an `x2<..>` / `x4<..>` of soft.rs — no
+    `PartialEq` in a build without the x86 module (soft.rs derives none; the `impl PartialEq for x2` lives in x86_64/sse2.rs)"""
+    out = []
+    try:
+        f = SP.File(repo, "generic", GENERIC)
+    except TErr as ex:
+        errors.append("%s: %s" % (GENERIC, ex))
+        return out
+    derived = set(n for tag, n, kind, ders in derive_rows if tag == "generic" and "PartialEq" in ders)
+    soft_eq = set(n for tag, n, kind, ders in derive_rows if tag == "soft" and "PartialEq" in ders)
+    aliases = dict((k, SP.ty_text(v)) for k, v in f.aliases.items())
+    for im in f.impls:
+        if im.trait is None or SP.ty_text(im.trait) != "Machine":
+            continue
+        mname = SP.ty_text(im.selfty)
+        for a in im.assoc:
+            m = re.match(r"^type (\w+) = (.+)$", a)
+            if not m:
+                errors.append("generic.rs impl Machine: `%s` not understood" % a)
+                continue
+            an, t = m.group(1), m.group(2).strip()
+            k = 0
+            while t in aliases and k < 8:
+                t, k = aliases[t], k + 1
+            head = t.split("<")[0].strip()
+            if t in derived:
+                out.append((mname, an, ["generic_%s_eq" % t]))
+            elif head in ("x2", "x4") and head not in soft_eq:
+                out.append((mname, an, [""]))
+            else:
+                errors.append("generic.rs <%s as Machine>::%s = %s: cannot tell whether it has a PartialEq" % (mname, an, t))
+    return out
+
+
 def simdeq_inventory(repo="/repo"):
     defs, errors = [], []
-    provided, missing = x86_part(repo, defs, errors)
+    provided, missing, mrows = x86_part(repo, defs, errors)
     rows = derive_part(repo, defs, errors)
-    return dict(defs=defs, errors=errors, provided=provided, missing=missing, derive_rows=rows)
+    mrows = mrows + generic_machine_rows(repo, rows, errors)
+    return dict(defs=defs, errors=errors, provided=provided, missing=missing, derive_rows=rows, machine_rows=mrows)
 
 
 def render_lean(inv):
@@ -456,6 +542,9 @@ def render_lean(inv):
     L.append("/-- every struct / union of generic.rs, soft.rs, guts.rs with its derive list: (file, name, kind, derives) -/")
     L.append("def derive_rows : List (String × String × String × List String) :=\n  [%s]\n" % ",\n   ".join(
         "(%s, %s, %s, [%s])" % (S(a), S(b), S(c), ", ".join(S(x) for x in d)) for a, b, c, d in inv["derive_rows"]))
+    L.append("/-- `impl Machine for ..`: (machine, associated vector type, the definition(s) above that are its `==`; \"\" = the Rust type has no `PartialEq`) -/")
+    L.append("def eq_machine_rows : List (String × String × List String) :=\n  [%s]\n" % ",\n   ".join(
+        "(%s, %s, [%s])" % (S(a), S(b), ", ".join(S(x) for x in c)) for a, b, c in inv["machine_rows"]))
     L.append("/-- the names of all definitions above, in order -/")
     L.append("def def_rows : List String :=\n  [%s]\n" % ", ".join(S(d.name) for d in inv["defs"]))
     L.append("end CC.Gen.SimdEqSrc")
